@@ -102,8 +102,14 @@ func c06wrap(link oracle.Link, ipb []byte) []byte {
 }
 
 // c06valid builds a well-formed frame of the given kind.
+// c06forceSrc: when set, the next valid frames carry this source address (special addresses: 0.0.0.0, broadcast)
+var c06forceSrc *[4]byte
+
 func c06valid(rng *rand.Rand, link oracle.Link, kind string) []byte {
 	src, dst := c06ip(rng), c06ip(rng)
+	if c06forceSrc != nil {
+		src = *c06forceSrc
+	}
 	spec := func(proto uint8) oracle.IPSpec {
 		s := oracle.NewIPSpec(src, dst, proto)
 		s.TTL = uint8(1 + rng.Intn(255))
@@ -451,6 +457,26 @@ func TestVerifC06(t *testing.T) {
 		}
 		runHistory(pi, hist, "long/"+kind)
 		run.Count("long_histories", 1)
+	}
+	// ---- 2c. a fresh processor whose very first frames come from special source addresses (0.0.0.0 is the zero
+	// value of any cache of "the last address seen")
+	for pi := range procs {
+		kind := map[uint8]string{oracle.ProtoTCP: "tcp", oracle.ProtoICMP: "icmp", 0: "arp"}[procs[pi].proto]
+		if kind == "arp" || run.Batch() != pi%run.NBatch() {
+			continue
+		}
+		for _, order := range [][][4]byte{{{0, 0, 0, 0}, {0, 0, 0, 0}, {255, 255, 255, 255}, {0, 0, 0, 0}}, {{255, 255, 255, 255}, {0, 0, 0, 0}}, {{0, 0, 0, 1}, {0, 0, 0, 0}, {0, 0, 0, 1}}} {
+			renew(pi)
+			var hist [][]byte
+			for _, a := range order {
+				a := a
+				c06forceSrc = &a
+				hist = append(hist, c06valid(rng, procs[pi].link, kind))
+			}
+			c06forceSrc = nil
+			runHistory(pi, hist, "special-sources/"+kind)
+			run.Count("histories_starting_with_special_source_addresses", 1)
+		}
 	}
 	// ---- 3. seeded mutation histories
 	nh := run.Pick(2500, 60000)
